@@ -6,7 +6,8 @@ from vlib import NoVerdict, log
 
 OVERLAY = {"attestation/yubiattest/zz_verif_attest_test.go": os.path.join(vlib.HARNESS, "attest", "zz_verif_attest_test.go"),
            "attestation/yubiattest/zz_verif_attest16_test.go": os.path.join(vlib.HARNESS, "attest", "zz_verif_attest16_test.go"),
-           "attestation/yubiattest/zz_verif_attest_cross_test.go": os.path.join(vlib.HARNESS, "attest", "zz_verif_attest_cross_test.go")}
+           "attestation/yubiattest/zz_verif_attest_cross_test.go": os.path.join(vlib.HARNESS, "attest", "zz_verif_attest_cross_test.go"),
+           "attestation/yubiattest/zz_verif_attest_epoch_test.go": os.path.join(vlib.HARNESS, "attest", "zz_verif_attest_epoch_test.go")}
 TRACE_CFG = "SPECIFICATION TraceSpec\nCONSTANTS\n  MHBytes = {0}\n  MaxVal = 0\n  MutCtx <- MutCtxAll"
 CONF = {
     "C06": dict(test="TestVerifAttest06", fml="TC06", strict="Strict06",
@@ -27,8 +28,8 @@ def key_of(prop, e):
     r = e["res"]
     pan = str(r["pan"]).lower()
     if prop == "C06":
-        return "op=attest via=%s label=%s scheme=%s attestor=%s kt=%s alg=%d rel=%s time=%s sf=%s mut=%s shape=%s acc=%s pan=%s" % (
-            e.get("via", "value"), e.get("lab", "") or "-", e.get("sch", "-"), e.get("hist", "?"), e["kt"], e["alg"], e["rel"], e["time"], e["sf"], e["mut"], e["em"]["shape"], str(r["acc"]).lower(), pan)
+        return "op=attest via=%s label=%s scheme=%s attestor=%s epoch=%s kt=%s alg=%d rel=%s time=%s sf=%s mut=%s shape=%s acc=%s pan=%s" % (
+            e.get("via", "value"), e.get("lab", "") or "-", e.get("sch", "-"), e.get("hist", "?"), e.get("now", 0), e["kt"], e["alg"], e["rel"], e["time"], e["sf"], e["mut"], e["em"]["shape"], str(r["acc"]).lower(), pan)
     if e["op"] == "modhex":
         return "op=modhex history=%s vlen=%d present=%s ok=%s pan=%s" % (e.get("hist", "-"), len(e["val"]), str(e["present"]).lower(), str(r["ok"]).lower(), pan)
     if e["op"] == "parse":
@@ -116,6 +117,12 @@ def run(prop, tier):
     steps = [x for x in recs if x.get("ev") == "step"]
     # vacuity guards: the run must have exercised what it claims
     if prop == "C06":
+        nepoch = sum(1 for x in cases if x["c"]["time"] in ("lapsing", "becoming"))
+        if nepoch == 0 or summ["epoch0_calls"] == 0 or summ["epoch1_calls"] == 0 or summ["epoch1_accepted"] == 0:
+            raise NoVerdict("the epoch instance gave nothing to judge (%d cases, %d epoch-0 calls, %d epoch-1 calls, %d instances discarded by the time guard)"
+                            % (nepoch, summ["epoch0_calls"], summ["epoch1_calls"], summ["epoch_instances_discarded"]))
+        cases_t = cases
+        cases = [x for x in cases if x["c"]["time"] not in ("lapsing", "becoming")]
         ncross = sum(1 for x in cases if x["c"].get("via") == "parsed")
         nrsa = sum(1 for x in cases if x["c"]["kt"] == "rsa" and x["c"]["em"]["lead"] != "FF" and x["c"].get("via") != "parsed")
         nff = sum(1 for x in cases if x["c"]["kt"] == "rsa" and x["c"]["em"]["lead"] == "FF")
@@ -126,6 +133,7 @@ def run(prop, tier):
             raise NoVerdict("%d of %d accepting predecessors were not accepted, yet nothing was reported" % (summ["predecessors"] - summ["predecessors_accepted"], summ["predecessors"]))
         if ncross == 0 or summ["cross_accepted"] == 0:
             raise NoVerdict("vacuous run: no label x scheme case (%d) or none of them accepted" % ncross)
+        cases = cases_t
         if summ["a_cases"] + summ["unrealisable"] != want or summ["unrealisable"] > 0:
             raise NoVerdict("only %d of %d exported cases were materialised (%d unrealisable)" % (summ["a_cases"], want, summ["unrealisable"]))
         if summ["accepted"] == 0 or summ["b_cases"] == 0:
@@ -187,8 +195,8 @@ def replay(prop, path):
     mp = meta.get("plan", {})
     if prop == "C06":
         drop = ("k", "src", "res", "info", "hist")
-        a = [x for x in evs if x["e"]["src"] in ("A", "A-cross")]
-        b = [x["tid"] for x in evs if x["e"]["src"] not in ("A", "A-cross")]
+        a = [x for x in evs if x["e"]["src"] in ("A", "A-cross", "A-epoch")]
+        b = [x["tid"] for x in evs if x["e"]["src"] not in ("A", "A-cross", "A-epoch")]
         bits = sorted({x["e"]["k"] * 8 for x in a if x["e"]["k"] and "-ff" not in x["tid"]}) or mp.get("bits", [1024])
         plan = {"c06": {"cases": [{"c": {k: v for k, v in x["e"].items() if k not in drop}} for x in a], "bits": bits,
                         "nflip": mp.get("nflip", 40), "only": b, "nob": not b, "workers": 2}}
